@@ -422,6 +422,7 @@ func (x *Exec) symbolic(name string, T types.Type, mk func(n string, s Sort) *Te
 			v.IsNil = False
 		} else if !x.noFacts {
 			x.addFact(v.Len, And(Le(IntLit(0), v.Len), Le(v.Len, IntStr("4611686018427387904"))))
+			x.noteRange(v.Len, big.NewInt(0), new(big.Int).Lsh(big.NewInt(1), 62))
 			x.addFact(v.IsNil, Implies(v.IsNil, Eq(v.Len, IntLit(0))))
 		}
 		return v
